@@ -53,13 +53,15 @@ Section Features.
   Definition pt_default : pt2 := (f0, f0).
 
   (** index of the ridge on whose side of the transform faults the point lies *)
-  Fixpoint relevant_ridge (ridges : list (list pt2)) (cp : pt2) (i : nat) : nat :=
+  Fixpoint relevant_ridge (ridges : list (list pt2)) (cp cp2 : pt2) (i : nat) : nat :=
     match ridges with
     | r0 :: ((r1 :: _) as rest) =>
         let tp0 := nth 0 r1 pt_default in
         let tp1 := last r0 pt_default in
         let ref := nth 0 r0 pt_default in
-        if Bool.eqb (side_lt0 tp0 tp1 ref) (side_lt0 tp0 tp1 cp) then i else relevant_ridge rest cp (S i)
+        (* the copy of the point closest in longitude to the transform fault decides the side *)
+        let sp := if fabs (fst cp - fst tp0) <=? fabs (fst cp2 - fst tp0) then cp else cp2 in
+        if Bool.eqb (side_lt0 tp0 tp1 ref) (side_lt0 tp0 tp1 sp) then i else relevant_ridge rest cp cp2 (S i)
     | _ => i
     end.
 
@@ -97,7 +99,7 @@ Section Features.
     let '(a, b, c3) := nat_min in
     let cp : pt2 := if sph then (b, c3) else (a, b) in
     let cp2 : pt2 := if sph then (fst cp + (if fst cp <? f0 then f2 * fpi else (- f2) * fpi), snd cp) else cp in
-    let r := if Nat.ltb 1 (length (nth 0 ridges [])) then relevant_ridge ridges cp 0 else 0 in
+    let r := if Nat.ltb 1 (length (nth 0 ridges [])) then relevant_ridge ridges cp cp2 0 else 0 in
     let '(d, s) := ridge_scan sph nat_min cp cp2 (nth r ridges []) (nth r vels []) true (fdmax, f0) in
     (s / seconds_in_year, d).
 
